@@ -250,6 +250,15 @@ def gen_plasma(rng, nprov):
             "rider": gen_rider(rng, "p")}
 
 
+def mark_default_integrators(rng, spec):
+    """Swarm: in some two-plasma scenes the plasmas are built without an explicit integrator (the constructor's default,
+    1 mm step) and the step is later changed in place, the idiom of the library's own demos."""
+    if len(spec["plasmas"]) > 1 and rng.random() < 0.3:
+        for ps in spec["plasmas"]:
+            ps["integrator_default"] = True
+            ps["integrator_step"] = 0.001
+
+
 def gen_beam(rng, nprov, plasmas, pi):
     el = rng.choice(["D", "H"])
     b = {"parent": rng.choice(["frame", "world"]), "transform": gen_transform(rng, toward_origin=True, dist=rng.uniform(1.2, 1.6)),
@@ -353,6 +362,8 @@ def apply_spec(sp, op):
             ps["geometry_transform"] = op["t"]
         elif k == "p.integrator":
             ps["integrator_step"] = op["step"]
+            if not op.get("inplace"):
+                ps["integrator_default"] = False
         elif k == "p.models.set":
             if op.get("keep"):
                 sp.setdefault("_kept_pm", []).extend(ps["models"])
@@ -651,11 +662,13 @@ class Scene:
         self.rider = None
         self.riders = {}
         self.free_atts = []
+        self.subject = False
 
 
-def build_scene(spec):
+def build_scene(spec, subject=False):
     """Canonical construction order: everything that determines geometry and data sources first, models last."""
     s = Scene()
+    s.subject = subject
     _CURRENT[0] = s
     s.world = World()
     for pv in spec["providers"]:
@@ -699,7 +712,13 @@ def build_plasma(s, spec, i):
         p.geometry = mk_geometry(ps["geometry"])
     if ps["geometry_transform"] is not None:
         p.geometry_transform = mk_transform(ps["geometry_transform"])
-    p.integrator = mk_integrator(ps["integrator_step"])
+    if s.subject and ps.get("integrator_default"):
+        # the subject keeps the integrator the constructor gave it and edits the step in place; the scene rebuilt from
+        # scratch always hands over an integrator of its own with the specified step
+        if p.integrator.step != ps["integrator_step"]:
+            p.integrator.step = ps["integrator_step"]
+    else:
+        p.integrator = mk_integrator(ps["integrator_step"])
     if ps["provider"] is not None:
         p.atomic_data = s.providers[ps["provider"]]
     if ps["models"]:
@@ -821,6 +840,7 @@ class SceneMachine(Machine):
             pv = rng.choice(spec["providers"])
             for _ in range(rng.randint(1, 2)):
                 pv["missing"].append(self._gen_missing(rng))
+        mark_default_integrators(rng, spec)
         rays = [gen_ray(rng, spec) for _ in range(6)]
         if rays[4]["bins"] == 21:
             # the same sight line observed twice with spectral windows that share the lower edge and the bin count only
@@ -829,6 +849,8 @@ class SceneMachine(Machine):
         # swarm: subset of mutator kinds enabled in this run
         kinds = self._kinds(spec)
         enabled = rng.sample(kinds, rng.randint(2, min(len(kinds), 9)))
+        if spec["plasmas"][0].get("integrator_default") and "p.integrator" not in enabled:
+            enabled.append("p.integrator")
         ops = []
         gspec = copy.deepcopy(spec)        # the generator's own view of the evolving configuration (no feedback from the system)
         if "hook.add" in kinds and rng.random() < 0.2:
@@ -1286,7 +1308,7 @@ class SceneMachine(Machine):
         c = Ctx()
         c.cfg = cfg
         c.spec = copy.deepcopy(cfg["spec"])
-        c.scene = build_scene(c.spec)
+        c.scene = build_scene(c.spec, subject=True)
         c.kept = []
         c.kept_pm = []
         c.kept_bm = []
